@@ -598,3 +598,295 @@ def gen_scaffold(rng, pid, kind, name=None, max_branches=4, max_depth=4, fail_ra
             out = ("panic", hid)
         p.handler = dict(kind=hk, id=hid, out=out, block=rng.chance(1, 2), pos=rng.below(nb + 1))
     return p
+
+
+# ------------------------------------------------------------------------------------------------
+# K2-chains: every generated chain is compiled through the macro AND as the plain documented method chain
+# (README "Combinators" / "Nested combinators") in the same binary; value and callback trace must agree.
+
+CH_PRELUDE = r'''
+impl Show for usize { fn show(&self) -> String { format!("{}", self) } }
+impl Show for i32 { fn show(&self) -> String { format!("{}", self) } }
+impl Show for u32 { fn show(&self) -> String { format!("{}", self) } }
+impl Show for bool { fn show(&self) -> String { format!("{}", self) } }
+impl<T: Show> Show for Vec<T> { fn show(&self) -> String { format!("V[{}]", self.iter().map(|x| x.show()).collect::<Vec<_>>().join(",")) } }
+pub fn t(id: u32) { log(format!("cb:{}", id)); }
+pub fn tins<T>(id: u32) -> impl Fn(&T) { move |_| t(id) }
+'''
+
+# state -> list of (operator, operand template, plain template with {P} = previous expr and {O} = operand, next state)
+CH_OPS = {
+    "Opt": [
+        ("|>", "|v| {{ t({id}); v + {c} }}", "{P}.map({O})", "Opt"),
+        ("=>", "|v| {{ t({id}); if v % 2 == 0 {{ Some(v + {c}) }} else {{ None }} }}", "{P}.and_then({O})", "Opt"),
+        ("?>", "|v| {{ t({id}); *v > {c} }}", "{P}.filter({O})", "Opt"),
+        ("<|", "Some({c}i64)", "{P}.or({O})", "Opt"),
+        ("<=", "|| {{ t({id}); Some({c}i64) }}", "{P}.or_else({O})", "Opt"),
+        ("??", "tins({id})", "{{ let __x = {P}; ({O})(&__x); __x }}", "Opt"),
+        ("->", "|o: Option<i64>| {{ t({id}); o.map(|x| x + {c}) }}", "({O})({P})", "Opt"),
+        ("..", "ok_or({c}i64)", "{P}.{O}", "Res"),
+        (">.", "unwrap_or({c})", "{P}.{O}", "Int"),
+        ("..", "xor(None::<i64>)", "{P}.{O}", "Opt"),
+    ],
+    "Res": [
+        ("|>", "|v| {{ t({id}); v + {c} }}", "{P}.map({O})", "Res"),
+        ("=>", "|v| {{ t({id}); if v % 2 == 0 {{ Ok(v + {c}) }} else {{ Err(v) }} }}", "{P}.and_then({O})", "Res"),
+        ("!>", "|e| {{ t({id}); e + {c} }}", "{P}.map_err({O})", "Res"),
+        ("<=", "|e| {{ t({id}); if e % 2 == 0 {{ Ok(e) }} else {{ Err(e + {c}) }} }}", "{P}.or_else({O})", "Res"),
+        ("<|", "Ok::<i64, i64>({c})", "{P}.or({O})", "Res"),
+        ("??", "tins({id})", "{{ let __x = {P}; ({O})(&__x); __x }}", "Res"),
+        ("->", "|r: Result<i64, i64>| {{ t({id}); r.map(|x| x * 2 + {c}) }}", "({O})({P})", "Res"),
+        (">.", "ok()", "{P}.{O}", "Opt"),
+        ("..", "unwrap_or({c})", "{P}.{O}", "Int"),
+    ],
+    "Int": [
+        ("->", "|v: i64| {{ t({id}); v + {c} }}", "({O})({P})", "Int"),
+        ("->", "Some", "({O})({P})", "Opt"),
+        ("->", "Ok::<i64, i64>", "({O})({P})", "Res"),
+        ("..", "wrapping_mul({c})", "{P}.{O}", "Int"),
+        ("->", "|v: i64| vec![v, v + 1, {c}].into_iter()", "({O})({P})", "Iter"),
+    ],
+    "Iter": [
+        ("|>", "|v| {{ t({id}); v * 2 + {c} }}", "{P}.map({O})", "Iter"),
+        ("?>", "|v| {{ t({id}); v % 2 == 0 }}", "{P}.filter({O})", "Iter"),
+        ("?|>", "|v| {{ t({id}); if v > {c} {{ Some(v - 1) }} else {{ None }} }}", "{P}.filter_map({O})", "Iter"),
+        (">@>", "vec![{c}i64, 5].into_iter()", "{P}.chain({O})", "Iter"),
+        ("|n>", "", "{P}.enumerate()", "EnumIter"),
+        (">^>", "vec![{c}i64, 7, 9].into_iter()", "{P}.zip({O})", "PairIter"),
+        ("^@", "0i64, |a, v| {{ t({id}); a + v }}", "{P}.fold({O})", "Int"),
+        ("?^@", "0i64, |a: i64, v| {{ t({id}); a.checked_add(v) }}", "{P}.try_fold({O})", "Opt"),
+        ("?@", "|v| {{ t({id}); *v > {c} }}", "{P}.find({O})", "Opt"),
+        ("?|>@", "|v| {{ t({id}); if v > {c} {{ Some(v * 2) }} else {{ None }} }}", "{P}.find_map({O})", "Opt"),
+        ("?&!>", "|v| {{ t({id}); v % 2 == 0 }}", "{P}.partition({O})", "Part"),
+        ("=>[]", "Vec<i64>", "{P}.collect::<{O}>()", "VecI"),
+        ("=>[]", "", "{P}.collect()", "VecI"),
+        ("|>", "|v| vec![v, v + {c}]", "{P}.map({O})", "NestIter"),
+        ("??", "tins({id})", "{{ let __x = {P}; ({O})(&__x); __x }}", "Iter"),
+    ],
+    "NestIter": [("^^>", "", "{P}.flatten()", "Iter")],
+    "EnumIter": [("|>", "|(i, v)| {{ t({id}); v + i as i64 }}", "{P}.map({O})", "Iter"),
+                 ("<->", "usize, i64, Vec<usize>, Vec<i64>", "{P}.unzip::<{O}>()", "UnzU")],
+    "PairIter": [("|>", "|(a, b)| {{ t({id}); a + b }}", "{P}.map({O})", "Iter"),
+                 ("<->", "", "{P}.unzip()", "Unz")],
+    "VecI": [("..", "into_iter()", "{P}.{O}", "Iter"), ("..", "len()", "{P}.{O}", "Usize")],
+}
+# wrappers: (state, macro text with {id}/{c}, plain template, next state)
+CH_WRAP = {
+    "Opt": [
+        ("=> >>> ..checked_add({c}) <<<", "{P}.and_then(|__v| __v.checked_add({c}))", "Opt"),
+        ("|> >>> ..wrapping_mul(2) ..wrapping_add({c}) <<<", "{P}.map(|__v| __v.wrapping_mul(2).wrapping_add({c}))", "Opt"),
+        ("?> >>> ..is_positive() <<<", "{P}.filter(|__v| __v.is_positive())", "Opt"),
+        ("|> >>> -> Some |> >>> ..wrapping_add({c}) <<< ..unwrap_or(0) <<<",
+         "{P}.map(|__v| (Some)(__v).map(|__v| __v.wrapping_add({c})).unwrap_or(0))", "Opt"),
+        ("=> >>> -> Some ?> >>> ..is_positive()", "{P}.and_then(|__v| (Some)(__v).filter(|__v| __v.is_positive()))", "Opt"),
+        ("|> >>> <<<", "{P}.map(|__v| __v)", "Opt"),
+        ("=> >>> ..checked_sub({c})", "{P}.and_then(|__v| __v.checked_sub({c}))", "Opt"),
+    ],
+    "Res": [
+        ("!> >>> ..wrapping_add({c}) <<<", "{P}.map_err(|__v| __v.wrapping_add({c}))", "Res"),
+        ("<= >>> -> Err::<i64, i64> <<<", "{P}.or_else(|__v| (Err::<i64, i64>)(__v))", "Res"),
+        ("=> >>> -> Ok::<i64, i64> |> >>> ..wrapping_sub({c}) <<< <<<", "{P}.and_then(|__v| (Ok::<i64, i64>)(__v).map(|__v| __v.wrapping_sub({c})))", "Res"),
+        ("|> >>> ..wrapping_mul({c})", "{P}.map(|__v| __v.wrapping_mul({c}))", "Res"),
+    ],
+    "Iter": [
+        ("|> >>> ..wrapping_mul({c}) <<<", "{P}.map(|__v| __v.wrapping_mul({c}))", "Iter"),
+        ("?> >>> ..is_positive() <<<", "{P}.filter(|__v| __v.is_positive())", "Iter"),
+        ("?|> >>> ..checked_sub({c}) <<<", "{P}.filter_map(|__v| __v.checked_sub({c}))", "Iter"),
+        ("?@ >>> ..is_positive() <<<", "{P}.find(|__v| __v.is_positive())", "Opt"),
+        ("?|>@ >>> ..checked_sub({c}) <<<", "{P}.find_map(|__v| __v.checked_sub({c}))", "Opt"),
+        ("?&!> >>> ..is_positive()", "{P}.partition(|__v| __v.is_positive())", "Part"),
+        ("|> >>> ..wrapping_add(1) -> Some ?> >>> ..is_positive() <<< ..unwrap_or({c}) <<<",
+         "{P}.map(|__v| (Some)(__v.wrapping_add(1)).filter(|__v| __v.is_positive()).unwrap_or({c}))", "Iter"),
+    ],
+}
+CH_INIT = {
+    "Opt": ["Some({c}i64)", "None::<i64>", "{{ Some({c}i64) }}", "Some(-{c}i64)"],
+    "Res": ["Ok::<i64, i64>({c})", "Err::<i64, i64>({c})", "{{ Ok::<i64, i64>({c}) }}"],
+    "Int": ["{c}i64", "-{c}i64", "{c}i64 + 1", "{{ {c}i64 }}", "3i64 | {c}i64"],
+    "Iter": ["vec![1i64, 2, 3, {c}].into_iter()", "Vec::<i64>::new().into_iter()", "vec![{c}i64, -4, 7, 10, 11].into_iter()"],
+}
+CH_TYPE = {"Opt": "Option<i64>", "Res": "Result<i64, i64>", "Int": "i64", "VecI": "Vec<i64>", "Part": "(Vec<i64>, Vec<i64>)",
+           "Unz": "(Vec<i64>, Vec<i64>)", "UnzU": "(Vec<usize>, Vec<i64>)", "Usize": "usize"}
+CH_FINALIZE = {"Iter": ("=>[] Vec<i64>", "{P}.collect::<Vec<i64>>()", "VecI"), "Iter0": ("=>[] Vec<i64>", "{P}.collect::<Vec<i64>>()", "VecI"),
+               "EnumIter": ("|> |(i, v)| v + i as i64 =>[] Vec<i64>", "{P}.map(|(i, v)| v + i as i64).collect::<Vec<i64>>()", "VecI"),
+               "PairIter": ("<->", "{P}.unzip()", "Unz"), "NestIter": ("^^> =>[] Vec<i64>", "{P}.flatten().collect::<Vec<i64>>()", "VecI")}
+
+
+class Chain:
+    def __init__(self):
+        self.macro, self.plain, self.state, self.ops = "", "", "", []
+
+
+def gen_chain(rng, ids, length, want_final=None, allow_tilde=False, wrappers=(1, 4), force_ops=None):
+    """One branch: initial value + operators.  Returns Chain (macro text, plain Rust text, final state)."""
+    ch = Chain()
+    st = rng.pick(list(CH_INIT))
+    c = 1 + rng.below(9)
+    init = rng.pick(CH_INIT[st]).format(c=c)
+    ch.macro = init
+    ch.plain = "(%s)" % init
+    n = 0
+    while n < length:
+        n += 1
+        if st == "Iter0":
+            st = "Iter"
+        if st not in CH_OPS:
+            break
+        tilde = "~" if allow_tilde and rng.chance(1, 4) else ""
+        c = 1 + rng.below(9)
+        if st in CH_WRAP and rng.chance(*wrappers):
+            m, pl, nxt = rng.pick(CH_WRAP[st])
+            # a wrapper left open must be the last action of its step
+            if m.count(">>>") > m.count("<<<") and n < length:
+                continue
+            ch.macro += " " + tilde + m.format(c=c)
+            ch.plain = pl.replace("{P}", ch.plain).replace("{c}", str(c))
+            ch.ops.append(m.split(" ")[0] + ">>>")
+            st = nxt
+            continue
+        op, otmpl, ptmpl, nxt = rng.pick(CH_OPS[st]) if not force_ops else force_ops.pop(0)
+        if op == "=>[]" and not otmpl and n < length:
+            continue     # an untyped collect needs the annotated result type: last operator only
+        i = ids.next()
+        operand = otmpl.format(id=i, c=c)
+        needs_inference = operand.startswith("|") and not re.match(r"^\|\w+: ", operand)
+        as_block = bool(operand) and op not in ("..", ">.", "=>[]", "<->", "^@", "?^@") and not needs_inference and rng.chance(1, 3)
+        o_macro = "{ %s }" % operand if as_block else operand
+        ch.macro += " " + tilde + op + (" " + o_macro if o_macro else "")
+        ch.plain = ptmpl.replace("{P}", ch.plain).replace("{O}", operand)
+        ch.ops.append(op)
+        st = nxt
+    if st in CH_FINALIZE:
+        m, pl, nxt = CH_FINALIZE[st]
+        ch.macro += " " + m
+        ch.plain = pl.replace("{P}", ch.plain)
+        st = nxt
+    ch.state = st
+    return ch
+
+
+class ChainProg:
+    def __init__(self, pid, name, chains):
+        self.pid, self.name, self.chains = pid, name, chains
+
+    def macro_input(self):
+        return ", ".join(c.macro for c in self.chains)
+
+    def ty(self):
+        ts = [CH_TYPE[c.state] for c in self.chains]
+        return ts[0] if len(ts) == 1 else "(" + ", ".join(ts) + ")"
+
+    def rust_fn(self):
+        plain = self.chains[0].plain if len(self.chains) == 1 else "(" + ", ".join(c.plain for c in self.chains) + ")"
+        text = self._rust_fn(plain)
+        return text.replace("strip(", "strip_sorted(") if len(self.chains) > 1 else text
+
+    def _rust_fn(self, plain):
+        return ("fn %s() -> String {\n    take_log();\n"
+                "    let a = std::panic::catch_unwind(|| { let __r: %s = %s! { %s }; __r.show() }).unwrap_or_else(|e| format!(\"panic {}\", panic_text(e))); let ta = take_log();\n"
+                "    let b = std::panic::catch_unwind(|| { let __r: %s = %s; __r.show() }).unwrap_or_else(|e| format!(\"panic {}\", panic_text(e))); let tb = take_log();\n"
+                "    if a == b && strip(&ta) == strip(&tb) { format!(\"same {}\", a) } else { format!(\"DIFF macro={} [{}] plain={} [{}]\", a, strip(&ta), b, strip(&tb)) }\n}\n"
+                % (self.pid, self.ty(), self.name, self.macro_input(), self.ty(), plain))
+
+
+CH_MAIN = r'''
+fn strip(s: &str) -> String { s.split(' ').map(|w| w.split('@').next().unwrap_or("")).collect::<Vec<_>>().join(" ") }
+// several branches: the macro runs step by step across the branches, the plain tuple branch by branch; compare as multisets
+fn strip_sorted(s: &str) -> String { let mut v: Vec<&str> = s.split(' ').map(|w| w.split('@').next().unwrap_or("")).collect(); v.sort(); v.join(" ") }
+fn main() {
+    std::panic::set_hook(Box::new(|_| {}));
+    let progs: Vec<(&str, fn() -> String)> = vec![%s];
+    for (name, f) in progs { println!("{}\t{}", name, f()); }
+}
+'''
+
+
+def gen_chain_programs(rng, n, kinds=("join", "try_join", "join_spawn", "spawn", "try_join_spawn")):
+    ids = Ids()
+    out = []
+    for i in range(n):
+        name = rng.pick(list(kinds))
+        is_try = name.startswith("try")
+        nb = 1 if rng.chance(2, 3) else 2
+        chains = []
+        for b in range(nb):
+            for _ in range(50):
+                ch = gen_chain(rng, ids, 1 + rng.below(7), allow_tilde=not is_try)
+                if ch.state in CH_TYPE and (not is_try or ch.state == "Res"):
+                    break
+            else:
+                ch = gen_chain(rng, ids, 0)
+                if is_try or ch.state not in CH_TYPE:
+                    ch = Chain()
+                    ch.macro, ch.plain, ch.state = "Ok::<i64, i64>(1)", "Ok::<i64, i64>(1)", "Res"
+            chains.append(ch)
+        if is_try and nb > 1:
+            # try macros transpose: plain form is the tuple transposed by hand
+            p = ChainProg("c%d" % i, name, chains)
+            p.try_multi = True
+        else:
+            p = ChainProg("c%d" % i, name, chains)
+            p.try_multi = False
+        out.append(p)
+    return out
+
+
+class FixedChainProg(ChainProg):
+    """A hand-written regression: (macro name, macro input, plain Rust, result type)."""
+
+    def __init__(self, pid, name, macro, plain, ty):
+        ChainProg.__init__(self, pid, name, [])
+        self._macro, self._plain, self._ty = macro, plain, ty
+
+    def macro_input(self):
+        return self._macro
+
+    def ty(self):
+        return self._ty
+
+    def rust_fn(self):
+        return self._rust_fn(self._plain)
+
+
+# initial expressions of lower precedence than a method call (defect fixed in /repo 2872bae), in every sync macro
+REGRESSION_CHAINS = [
+    ("-5i32 ..abs()", "(-5i32).abs()", "i32"),
+    ("1u32 | 2u32 ..count_ones()", "(1u32 | 2u32).count_ones()", "u32"),
+    ("2i64 + 3 -> |v: i64| v * 2", "(|v: i64| v * 2)(2i64 + 3)", "i64"),
+    ("Some(1i64) == None |> |b: bool| !b ..then(|| 1i64)", "(Some(1i64) == None).then(|| 1i64)", "Option<i64>")[:0] or
+    ("!true ..then(|| 1i64)", "(!true).then(|| 1i64)", "Option<i64>"),
+    ("-7i64 ~-> |v: i64| v + 1 ~..abs()", "((|v: i64| v + 1)(-7i64)).abs()", "i64"),
+    ("(1i64..4) |> |v| v * 2 =>[] Vec<i64>", "(1i64..4).map(|v| v * 2).collect::<Vec<i64>>()", "Vec<i64>"),
+]
+
+
+def regression_chain_programs():
+    out = []
+    for i, (m, pl, ty) in enumerate(REGRESSION_CHAINS):
+        for name in ("join", "join_spawn", "spawn"):
+            out.append(FixedChainProg("r%d_%s" % (i, name), name, m, pl, ty))
+    return out
+
+
+def run_chain_programs(ctx, progs, crate="k2chains"):
+    """Returns list of (prog, verdict line).  Each program: macro vs plain documented chain."""
+    fns = []
+    for p in progs:
+        if getattr(p, "try_multi", False):
+            a, b = p.chains
+            plain = "(%s).and_then(|x| (%s).map(|y| (x, y)))" % (a.plain, b.plain)
+            ty = "Result<(i64, i64), i64>"
+            fns.append(("fn %s() -> String {\n    take_log();\n"
+                        "    let a = std::panic::catch_unwind(|| { let __r: %s = %s! { %s }; __r.show() }).unwrap_or_else(|e| format!(\"panic {}\", panic_text(e))); let _ = take_log();\n"
+                        "    let b = std::panic::catch_unwind(|| { let __r: %s = %s; __r.show() }).unwrap_or_else(|e| format!(\"panic {}\", panic_text(e))); let _ = take_log();\n"
+                        "    if a == b { format!(\"same {}\", a) } else { format!(\"DIFF macro={} plain={}\", a, b) }\n}\n")
+                       % (p.pid, ty, p.name, p.macro_input(), ty, plain))
+        else:
+            fns.append(p.rust_fn())
+    src = PRELUDE_SYNC + CH_PRELUDE + "".join(fns) + CH_MAIN % ", ".join('("%s", %s as fn() -> String)' % (p.pid, p.pid) for p in progs)
+    ok, out, log = build_and_run(crate, src)
+    if not ok:
+        return None, log
+    lines = dict(l.split("\t", 1) for l in out.splitlines() if "\t" in l)
+    ctx.evals += len(progs)
+    return [(p, lines.get(p.pid, "MISSING")) for p in progs], log
